@@ -120,3 +120,17 @@ Example C15_translated_health_example :
   gen_handle_health_check (Some [HConn 7%N true true; HConn 9%N false true; HConn 7%N true false]) []
   = Ok ([], [SHealthCheck 7%N; SHealthCheck 9%N; SHealthCheck 7%N]).
 Proof. reflexivity. Qed.
+
+(* main AS TRANSLATED (see C16_translated_main_is_spec): exit status 0 is reached only after a configuration
+   was loaded and validated, exactly its threads were spawned — one worker per num_workers, the reporter iff
+   client_stats — and every one of them ended without a panic *)
+Require Import RV.Model.Config RV.Model.ConfigLoad RV.Model.LoadModel RV.Proofs.CodeLoad RV.Proofs.CodeMain.
+From Coq Require Import ZArith.
+Theorem C15_translated_main_spawns_the_configured_threads :
+  forall argc arg cores env fs valid bind_ok joins_ok ths,
+  main_spec argc arg cores env fs valid bind_ok joins_ok = Err (ExitWith 0 ths) ->
+  exists c, (if bytes_eqb arg t_ENV then env_load cores env else file_load cores (fs arg)) = Ok c
+            /\ valid c = true /\ ths = threads_of c /\ forallb joins_ok ths = true
+            /\ length (filter (fun t => match t with TWorker _ => true | TReporter => false end) ths) = N.to_nat (Z.to_N (lc_workers c)).
+Proof. exact main_exit_0. Qed.
+Print Assumptions C15_translated_main_spawns_the_configured_threads.
